@@ -59,6 +59,18 @@ func init() {
 		},
 	})
 	core.Register(&core.Property{
+		ID:         "C16",
+		Decided:    "Decides that the decimal accumulators of parseInt/parseUint cannot overflow silently, that the post-parse range switch rejects exactly the values outside every destination kind narrower than 64 bits (per build configuration), that a minus sign needs a digit in both decoding modes, and that kind, constructor, store width and bit-size tables agree in decoder and encoder (plus the digit tables of C04.R2); it does not decide the printed or parsed value.",
+		NotCovered: "the printer's arithmetic for every value, leading zeros after a minus sign in stream mode, fraction/exponent rejection (decided by the byte after the token, see C05).",
+		Rules: []*core.Rule{
+			{ID: "C16.R1", Title: "if len(pow10 table) digits can exceed the accumulator type, parseInt/parseUint contain an erroring comparison that mentions the type's bound (or delegate to strconv)", Covers: "a literal that does not fit 64 bits is an error, never a wrapped number", Min: 2, Run: c16r1},
+			{ID: "C16.R2", Title: "the switch over the destination kind in intDecoder/uintDecoder Decode and DecodeStream has, for every kind narrower than 64 bits in this configuration, a range test that is true exactly outside the kind's range and exits with an error", Covers: "a literal that does not fit the destination is an error, never truncated", Configs: []string{"default"}, Deep: []string{"386"}, Min: 20, Run: c16r2},
+			{ID: "C16.R3", Title: "in intDecoder.decodeByte and decodeStreamByte the clause accepting '-' tests the token length with an error exit", Covers: "a bare minus sign is an error", Min: 2, Run: c16r3},
+			{ID: "C16.R4", Title: "decoder: each numeric kind's constructor stores through a pointer of exactly that Go type; encoder: every bitSize the compiler emits has a case in AppendInt/AppendUint/ptrToUint64 and equals the width of the kind it is chosen for", Covers: "every integer width is read and written at its own width", Configs: []string{"default"}, Deep: []string{"386"}, Min: 60, Run: c16r4},
+			{ID: "C04.R2", Title: "digit-pair, power-of-ten and hex tables (shared with C04)", Covers: "exact decimal printing and parsing", Min: 250, Run: c04r2},
+		},
+	})
+	core.Register(&core.Property{
 		ID:         "C17",
 		Decided:    "Decides that the encoder's escape table, 8-byte scan mask and slow-path switch agree with each other per variant, that the UTF-8 lead-byte table matches the definition, and that all decoder escape readers accept the same letters and test \\u digits; it does not decide the emitted or decoded string for any input.",
 		NotCovered: "position-dependent behaviour of the 8-byte scan, surrogate-pair arithmetic, equality with encoding/json's decoded string.",
